@@ -232,6 +232,9 @@ fn body_json_of<'tcx>(tcx: TyCtxt<'tcx>, did: DefId, kind: DefKind, body: &Body<
     {
         let base = tcx.typeck_root_def_id(did);
         let _ = write!(s, ",\"fn_bounds\":{}", fn_bounds_json(tcx, base));
+        // type parameters in the order in which call sites list their type arguments ("targs")
+        let tps: Vec<String> = ty::GenericArgs::identity_for_item(tcx, base).types().map(|t| esc(&t.to_string())).collect();
+        let _ = write!(s, ",\"type_params\":[{}]", tps.join(","));
         let _ = write!(s, ",\"ret_ty\":{},\"ret_head\":{}", esc(&body.return_ty().to_string()), esc(&ty_head(tcx, body.return_ty())));
         let _ = write!(s, ",\"vis_pub\":{}", if matches!(kind, DefKind::Fn | DefKind::AssocFn) { tcx.visibility(did).is_public() } else { false });
         let attrs_derived = if matches!(kind, DefKind::AssocFn) { tcx.impl_of_assoc(did).map(|i| tcx.is_automatically_derived(i)).unwrap_or(false) } else { false };
